@@ -21,7 +21,7 @@ NOT_APPLICABLE = {
 # manifest until the rule module exists and passes on the tree)
 PENDING = {}
 for _p in ['C01', 'C02', 'C03', 'C04', 'C05', 'C09', 'C10',
-           'C11', 'C12', 'C13', 'C15', 'C16', 'C18', 'C19']:
+           'C12', 'C13', 'C15', 'C16', 'C18']:
     PENDING[_p] = ('not claimed yet: the static rules designed for this '
                    'property (DESIGN.md section 4) are not built yet')
 
@@ -91,3 +91,44 @@ claim('C08',
       'effect-site discovery + must-after event dataflow, typestate, '
       'exception-escape analysis over inlined CFGs',
       'DESIGN.md §4 C08')
+
+
+claim('C19',
+      'Static proof obligations over the pool code: who-may-call for every '
+      'pool growth primitive; the spawn guard (no idle client; unbounded or '
+      'below pool_size) established on every path to _add_client (path '
+      'search over a disjunctive guard); link/start/record on every path of '
+      '_add_client; removal-before-respawn and the respawn condition in '
+      '_remove_client; request typestate over all paths and exception edges '
+      'of every RelayPoolClient._run (no stranded request); semaphore/size '
+      'deltas and ordering in every BlockingDeque override plus who-may-call '
+      'for un-overridden mutators; RSET after every failed transaction; '
+      're-queue-then-leave on server timeouts.',
+      'Trusted: gevent cooperative scheduling (no preemption between the '
+      'guard and the spawn), DEQUE_SPEC table, the may-raise oracle of '
+      'rules/pool.py (pure-external table; asserts treated as beliefs). '
+      'Interleavings as executions are not explored.',
+      'who-may-call queries, disjunctive-guard path search, may-typestate '
+      'dataflow with exception edges, event counting per CFG path',
+      'DESIGN.md §4 C19')
+
+claim('C11',
+      'Static proof obligations over all relay implementations: kind '
+      'inference (flow-sensitive, interprocedural) shows what every '
+      'Relay.attempt and every AsyncResult.set can return - never an '
+      'exception object at top level; every Client reply obtained by the '
+      'relay client is used or exempt by table; success results are set '
+      'only on exception-free paths after both stages and only under '
+      'positive acceptance facts (2xx status, exit status 0, not '
+      'is_error()); permanent/transient classification is dominated by '
+      'the reply class / exit status / resolver outcome; every anticipated '
+      'failure resolves the request (typestate); subprocess bytes are '
+      'decoded before being compared or put into a Reply.',
+      'Trusted: kinds tables (EXTERNAL_RESULTS: e.g. Popen.communicate '
+      'returns bytes), N2 exemption table, the may-raise oracle. What a '
+      'real peer sends is not modelled; HTTP status mapping is left to the '
+      'unit tests that pin it.',
+      'abstract interpretation over a small kinds domain (flow-sensitive '
+      'on CFGs, return-kind summaries), def-use checks, guard dominance, '
+      'typestate',
+      'DESIGN.md §4 C11')
